@@ -180,7 +180,7 @@ func Schemata(p *core.Prog, r *core.Report) {
 					if strings.HasSuffix(pth, ".Default") && isNonNilCond(cd) {
 						hasDefault = true
 					}
-					if strings.HasSuffix(pth, ".skipSchemataResult") && !cd.Sense {
+					if strings.HasSuffix(pth, "."+skipSchemataField) && !cd.Sense {
 						notSkipped = true
 					}
 				}
@@ -224,7 +224,7 @@ func Schemata(p *core.Prog, r *core.Report) {
 				// stop at the first guard that is not about Schema/skipSchemataResult
 				ifi := pb.Instrs[len(pb.Instrs)-1].(*ssa.If)
 				pth, _ := core.StablePath(condOperand(core.Cond{Value: stripNot(ifi.Cond)}))
-				if !strings.HasSuffix(pth, ".Schema") && !strings.HasSuffix(pth, ".skipSchemataResult") {
+				if !strings.HasSuffix(pth, ".Schema") && !strings.HasSuffix(pth, "."+skipSchemataField) {
 					break
 				}
 				guard = pb
